@@ -222,6 +222,33 @@ def run(ctx):
                 fails.append({"why": "relative energy error envelope depends on the order in which the planets were added: %.3g (giant last) vs %.3g (giant first)" % (em[0], em[1]),
                               "integrator": integ, "options": {"r_crit_hill": 5.0}, "N": 4, "dt": 2 * math.pi * 0.01, "steps": nst, "G": 1.0,
                               "pair": pair, "giant": giant})
+    # "these invariants also hold across synchronisation": EOS with every pre/post-processor pair, inner scheme LF8 so that
+    # truncation does not hide anything: the energy error stays at the 1e-13 level whether or not the run is synchronized
+    # every 10 steps, and the two runs end in the same state (a post-processor that is not the inverse of its
+    # pre-processor perturbs the state at every synchronisation)
+    for phi0 in ("pmlf4", "pmlf6", "plf7_6_4", "lf4", "lf6", "lf8", "lf4_2"):
+        seed_ = rng.randrange(1 << 30); res = []
+        try:
+            for every in (0, 10):
+                import random as _random
+                sim = rand_system(rebound, _random.Random(seed_), 4); sim.integrator = "eos"
+                sim.ri_eos.phi0 = phi0; sim.ri_eos.phi1 = "lf8"; sim.ri_eos.n = 4; sim.ri_eos.safe_mode = 0
+                sim.dt = 2 * math.pi * math.sqrt(1.6 ** 3 / sim.G) / 150
+                E0 = sim.energy(); e_ = 0.0
+                for s_ in range(300):
+                    sim.step()
+                    if every and s_ % every == 0:
+                        sim.synchronize(); e_ = max(e_, abs((sim.energy() - E0) / E0))
+                sim.synchronize(); e_ = max(e_, abs((sim.energy() - E0) / E0))
+                res.append((e_, [(p.x, p.y, p.z, p.vx, p.vy, p.vz) for p in sim.particles]))
+        except Exception as ex:
+            fails.append({"why": "exception in EOS run: %r" % (ex,), "integrator": "eos", "options": {"phi0": phi0}}); continue
+        dd = max(abs(a - b) for pa, pb in zip(res[0][1], res[1][1]) for a, b in zip(pa, pb))
+        ctx.case(key=("eos-sync", phi0))
+        if not (max(res[0][0], res[1][0]) < 1e-10 and dd < 1e-9):
+            fails.append({"why": "EOS %s: energy error %.3g (uninterrupted) / %.3g (synchronized every 10 steps), final states differ by %.3g"
+                          % (phi0, res[0][0], res[1][0], dd), "integrator": "eos", "options": {"phi0": phi0, "phi1": "lf8", "n": 4, "safe_mode": 0},
+                          "N": 4, "seed_case": seed_, "steps": 300})
     # merging collisions: mass, momentum, COM
     for rep in range(ctx.scale(10, 100)):
         sim = rebound.Simulation()
